@@ -109,8 +109,12 @@ func (s *srvSession) MsgRecv(m srpc.Message) error {
 	if err != nil {
 		return err
 	}
-	*(m.(*signaling.SessionRequest)) = *r //nolint
-	return nil
+	// as an srpc stream does: the packet is decoded into the message the caller passed (no reset in between)
+	b, err := r.MarshalVT()
+	if err != nil {
+		return err
+	}
+	return m.(*signaling.SessionRequest).UnmarshalVT(b)
 }
 func (s *srvSession) CloseSend() error { return nil }
 func (s *srvSession) Close() error     { s.cancel(); return nil }
@@ -240,7 +244,8 @@ func (s *srvSession) start(srv *signaling_rpc_server.Server, sendInit bool) {
 		s.in <- &signaling.SessionRequest{Body: &signaling.SessionRequest_Init{Init: &signaling.SessionInit{PeerId: gen.PeerID(s.dst).String()}}}
 	}
 	go func() {
-		err := srv.Session(s)
+		// through the generated server stub (signaling_srpc.pb.go), with this object as the srpc stream underneath
+		_, err := signaling.NewSRPCSignalingHandler(srv, "").InvokeMethod(signaling.SRPCSignalingServiceID, "Session", s)
 		s.mu.Lock()
 		s.retErr = err
 		s.mu.Unlock()
@@ -439,7 +444,7 @@ func (s *srvListen) stop() bool {
 func mkMsg(kind string, claim, other int, data []byte, seqno uint64) *signaling.SessionMsg {
 	if kind == "honest-large" || kind == "tampered-tail-large" {
 		// an SDP-sized and larger payload: many hash blocks / buffers
-		data = append(append([]byte{}, data...), gen.DetBytes("large-"+string(data), 16385+int(seqno%5)*9001)...)
+		data = append(append([]byte{}, data...), gen.DetBytes("large-"+string(data), []int{16385, 25386, 34387, 43388, 52389, 65537, 70001, 131073 + 4097}[int(seqno%8)])...)
 	}
 	m, err := signaling.NewSessionMsg(gen.Key(claim), hash.HashType_HashType_BLAKE3, data, seqno)
 	if err != nil {
